@@ -36,12 +36,13 @@ FaultKinds == {"dup-identical", "dup-diff-samedeps", "dup-regrouped", "dup-diff-
                "clash-state-param-equal", "clash-state-param-unequal", "clash-param-inter", "clash-state-inter",
                "dup-state-diff", "dup-param-diff", "dup-state-identical",
                "missing-derivative", "orphan-derivative", "misplaced-derivative",
+               "orphan-derivative-stateless", "derivative-of-parameter", "derivative-copy-elsewhere",
                "undefined-symbol", "cycle-1", "cycle-2", "undefined-in-param-value"}
 \* sites: an assignment name (or a state / parameter name)
 Sites(k) ==
   CASE k \in {"dup-identical", "dup-diff-samedeps", "dup-regrouped", "dup-diff-deps", "dup-other-comp-diff", "dup-other-comp-identical",
               "undefined-symbol", "cycle-1"} -> mi.aN
-    [] k \in {"missing-derivative", "misplaced-derivative"} -> mi.dN
+    [] k \in {"missing-derivative", "misplaced-derivative", "derivative-copy-elsewhere"} -> mi.dN
     [] k \in {"clash-state-param-equal", "clash-state-param-unequal", "clash-state-inter", "dup-state-diff", "dup-state-identical"} -> mi.sN
     [] k \in {"clash-param-inter", "dup-param-diff", "undefined-in-param-value"} -> mi.pN
     [] k = "cycle-2" -> {n \in mi.iN : \E m \in mi.aN : n \in Vars(mi.ex[m]) /\ m # n}
@@ -67,6 +68,12 @@ Apply(bs, k, n) ==
     [] k = "dup-param-diff"      -> AddEntry(bs, "parameters", c, Entry(n, N("8")))
     [] k = "missing-derivative"  -> NonEmpty(RemoveName(bs, n))
     [] k = "orphan-derivative"   -> AddEntry(bs, "expressions", IF layout = "split" THEN "A" ELSE "", Entry("dk_dt", One))
+    \* a derivative-shaped name in a component that declares no state at all / only the parameter it names
+    [] k = "orphan-derivative-stateless" -> AddEntry(bs, "expressions", "Z", Entry("dk_dt", One))
+    [] k = "derivative-of-parameter" -> AddEntry(AddEntry(bs, "parameters", "Z", Entry("k", One)), "expressions", "Z",
+                                                 Entry("dk_dt", Var("k")))
+    \* the derivative stays where it is and is given once more, with another right-hand side, in a state-less component
+    [] k = "derivative-copy-elsewhere" -> AddEntry(bs, "expressions", "Z", Entry(n, Bn("add", e, N("1"))))
     [] k = "misplaced-derivative" -> AddEntry(NonEmpty(RemoveName(bs, n)), "expressions", OtherComp(c), Entry(n, e))
     [] k = "undefined-symbol"    -> ReplaceExpr(bs, n, Bn("add", e, Var("c")))      \* "c" is not defined when NInter < 3
     [] k = "cycle-1"             -> ReplaceExpr(bs, n, Bn("add", e, Var(n)))
@@ -98,7 +105,18 @@ C08_NoSilentChoice == Faulted /\ FOutcome = "ok" =>
      \A a, b \in fmi.atoms : a.name = b.name => (a.kind = b.kind /\ a.e = b.e)
 
 KindSeq == SetToSeq(FaultKinds)
-FHash == Hash + 13 * (CHOOSE j \in 1..Len(KindSeq) : KindSeq[j] = fault.kind) + 5 * PosN(fault.site)
+\* Hash (sums of cardinalities) is too regular to sample with: a polynomial hash of the dependency sets themselves,
+\* mixed with kind and site, so that every kind is emitted (the harness refuses to run with a kind that has no text)
+RECURSIVE Pow2(_)
+Pow2(k) == IF k = 0 THEN 1 ELSE 2 * Pow2(k - 1)
+SetCode(S) == LET RECURSIVE C(_)
+                  C(T) == IF T = {} THEN 0 ELSE LET v == CHOOSE v \in T : TRUE IN Pow2(PosN(v)) + C(T \ {v})
+              IN C(S)
+Hash2 == LET RECURSIVE H(_)
+             H(j) == IF j > Len(Build) THEN 7 ELSE (H(j + 1) * 131 + SetCode(deps[Build[j]])) % 1000003
+         IN H(1)
+FHash == ((Hash2 % 10007) * 31 + (Hash \div BaseMod) * 17 + 7919 * (CHOOSE j \in 1..Len(KindSeq) : KindSeq[j] = fault.kind)
+          + 3571 * PosN(fault.site) + (IF layout = "single" THEN 0 ELSE IF layout = "split" THEN 1 ELSE IF layout = "noparams" THEN 2 ELSE 3)) % 100003
 FEmit == (Faulted /\ FaultEmitMod > 0 /\ FHash % FaultEmitMod = 0) =>
    PrintT(ToJson([blocks |-> BlocksJson(fblocks), fault |-> fault, wellformed |-> WellFormed(fmi), outcome |-> FOutcome,
                   names |-> NameOrder]))
